@@ -11352,3 +11352,278 @@ func E11NoWrapWidthSkipsLeadingGlue(c *core.Ctx, r *core.Report) {
 		r.Fail("E11.nowrap-width-skips-leading-glue", key, c.Pos(acc.Pos()), fmt.Sprintf("`%s` adds every glue item to the line, also the white space that directly follows a forced break (no flag that is set where the breakpoint is appended and cleared at the next box guards it): that white space is skipped when the line is built and Linebreak leaves it out, so a right-aligned line starting with white space after a newline ends short of the edge by its width", c.Src(acc)))
 	}
 }
+
+// E11PenAdvancesOnly: the pen of the outline converter moves by the advances and by nothing else.
+func E11PenAdvancesOnly(c *core.Ctx, r *core.Report) {
+	r.Rule("E11.pen-advances-only", "FontFace.toPath places each glyph outline at the sum of the preceding advances (plus the face's own offsets) and applies a glyph's XOffset/YOffset to that glyph only. In the loop over the glyphs, every assignment to a variable that outlives the iteration and is handed to the outline call (the pen) adds fields of the current glyph whose name ends in `Advance` and nothing else of the glyph: a glyph's offset added to the pen itself displaces every following glyph by it — the acute of \"q\\u0301x\" moves the x by −230 units — and the width returned is no longer the sum of the advances, so path rendering disagrees with TextWidth and the PDF")
+	p := c.MustPkg("")
+	info := p.TypesInfo
+	fd := core.MustFuncDecl(p, "FontFace.toPath")
+	r.Func("canvas.FontFace.toPath")
+	var loop *ast.RangeStmt
+	ast.Inspect(fd.Body, func(m ast.Node) bool {
+		if rs, ok := m.(*ast.RangeStmt); ok && loop == nil {
+			if sl, ok := info.TypeOf(rs.X).Underlying().(*types.Slice); ok {
+				if nt, ok := sl.Elem().(*types.Named); ok && nt.Obj().Name() == "Glyph" {
+					loop = rs
+				}
+			}
+		}
+		return true
+	})
+	if loop == nil {
+		r.Fail("E11.pen-advances-only", "canvas.FontFace.toPath|glyph loop", c.Pos(fd.Pos()), "the loop over the glyphs was not found")
+		return
+	}
+	var glyph types.Object
+	if id, ok := loop.Value.(*ast.Ident); ok {
+		glyph = info.Defs[id]
+	}
+	n := 0
+	ast.Inspect(loop.Body, func(m ast.Node) bool {
+		as, ok := m.(*ast.AssignStmt)
+		if !ok || len(as.Lhs) != len(as.Rhs) {
+			return true
+		}
+		for i, l := range as.Lhs {
+			lid, ok := l.(*ast.Ident)
+			if !ok {
+				continue
+			}
+			o := core.ObjOf(info, lid)
+			if o == nil || (loop.Body.Pos() <= o.Pos() && o.Pos() < loop.Body.End()) {
+				continue // a local of the iteration
+			}
+			if b, ok := o.Type().Underlying().(*types.Basic); !ok || b.Info()&types.IsNumeric == 0 {
+				continue
+			}
+			n++
+			key := fmt.Sprintf("canvas.FontFace.toPath|pen update #%d (%s)", n, lid.Name)
+			bad := ""
+			ast.Inspect(as.Rhs[i], func(k ast.Node) bool {
+				se, ok := k.(*ast.SelectorExpr)
+				if !ok {
+					return true
+				}
+				if id, ok := core.Unparen(se.X).(*ast.Ident); ok && core.ObjOf(info, id) == glyph {
+					if !strings.HasSuffix(se.Sel.Name, "Advance") {
+						bad = types.ExprString(se)
+					}
+				}
+				return true
+			})
+			if bad == "" {
+				r.OK("E11.pen-advances-only", key, c.Pos(as.Pos()), c.Src(as))
+			} else {
+				r.Fail("E11.pen-advances-only", key, c.Pos(as.Pos()), fmt.Sprintf("`%s` adds `%s` to the pen, which is carried to the following glyphs: the offset of one glyph (a combining mark, a rotated glyph in vertical text) displaces every glyph after it, and the returned width is no longer the sum of the advances that TextWidth and the PDF use", c.Src(as), bad))
+			}
+		}
+		return true
+	})
+	r.Count("E11.pen-advances-only", n)
+	r.Floor("E11.pen-advances-only", 2)
+}
+
+// E11ControlPointClausesSymmetric: CubeTo's test for a cubic that is really a line treats both control points alike.
+func E11ControlPointClausesSymmetric(c *core.Ctx, r *core.Report) {
+	r.Rule("E11.control-point-clauses-symmetric", "Path.CubeTo stores a line instead of a cubic when both control points lie on the chord between start and end. The condition is a conjunction with one clause per control point, and the two clauses are the same test: every conjunct that mentions the first control point becomes, with the first control point's name replaced by the second's, a conjunct that mentions the second — and no conjunct mentions both. A clause for the second control point that tests the first one's position against the end point (a half-finished rename) lets the second control point lie beyond the end: a cubic that overshoots its end point and comes back is stored as a line, and the overshoot is gone from Bounds, Length, Flatten and every renderer")
+	p := c.MustPkg("")
+	info := p.TypesInfo
+	fd := core.MustFuncDecl(p, "Path.CubeTo")
+	r.Func("canvas.Path.CubeTo")
+	var params []types.Object
+	for _, f := range fd.Type.Params.List {
+		for _, nm := range f.Names {
+			params = append(params, info.Defs[nm])
+		}
+	}
+	if len(params) != 6 {
+		panic(core.Infra("CubeTo: six parameters expected"))
+	}
+	var cp [2]types.Object
+	ast.Inspect(fd.Body, func(m ast.Node) bool {
+		as, ok := m.(*ast.AssignStmt)
+		if !ok || len(as.Lhs) != len(as.Rhs) {
+			return true
+		}
+		for i, rhs := range as.Rhs {
+			cl, ok := core.Unparen(rhs).(*ast.CompositeLit)
+			if !ok || len(cl.Elts) != 2 {
+				continue
+			}
+			a, ok1 := core.Unparen(cl.Elts[0]).(*ast.Ident)
+			b, ok2 := core.Unparen(cl.Elts[1]).(*ast.Ident)
+			lid, ok3 := as.Lhs[i].(*ast.Ident)
+			if !ok1 || !ok2 || !ok3 {
+				continue
+			}
+			for k := 0; k < 2; k++ {
+				if core.ObjOf(info, a) == params[2*k] && core.ObjOf(info, b) == params[2*k+1] {
+					cp[k] = core.ObjOf(info, lid)
+				}
+			}
+		}
+		return true
+	})
+	if cp[0] == nil || cp[1] == nil {
+		r.Fail("E11.control-point-clauses-symmetric", "canvas.Path.CubeTo|control points", c.Pos(fd.Pos()), "the two Point locals built from the control point parameters were not found")
+		return
+	}
+	mentions := func(e ast.Node, o types.Object) bool {
+		hit := false
+		ast.Inspect(e, func(m ast.Node) bool {
+			if id, ok := m.(*ast.Ident); ok && core.ObjOf(info, id) == o {
+				hit = true
+			}
+			return !hit
+		})
+		return hit
+	}
+	n := 0
+	ast.Inspect(fd.Body, func(m ast.Node) bool {
+		is, ok := m.(*ast.IfStmt)
+		if !ok || !mentions(is.Cond, cp[0]) || !mentions(is.Cond, cp[1]) {
+			return true
+		}
+		var conj []ast.Expr
+		var flat func(e ast.Expr)
+		flat = func(e ast.Expr) {
+			e = core.Unparen(e)
+			if b, ok := e.(*ast.BinaryExpr); ok && b.Op == token.LAND {
+				flat(b.X)
+				flat(b.Y)
+				return
+			}
+			conj = append(conj, e)
+		}
+		flat(is.Cond)
+		n++
+		key := fmt.Sprintf("canvas.Path.CubeTo|condition #%d treats both control points alike", n)
+		rename := func(e ast.Expr, from, to types.Object) string {
+			// print with every occurrence of the identifier `from` written as `to`
+			src := " " + types.ExprString(e) + " "
+			var out strings.Builder
+			for i := 0; i < len(src); {
+				if strings.HasPrefix(src[i:], from.Name()) && !isWordByte(src[i-1]) && (i+len(from.Name()) >= len(src) || !isWordByte(src[i+len(from.Name())])) {
+					out.WriteString(to.Name())
+					i += len(from.Name())
+					continue
+				}
+				out.WriteByte(src[i])
+				i++
+			}
+			return strings.TrimSpace(out.String())
+		}
+		texts := map[string]bool{}
+		for _, e := range conj {
+			texts[types.ExprString(e)] = true
+		}
+		bad := ""
+		for _, e := range conj {
+			m0, m1 := mentions(e, cp[0]), mentions(e, cp[1])
+			switch {
+			case m0 && m1:
+				bad = fmt.Sprintf("the conjunct `%s` mentions both control points", types.ExprString(e))
+			case m0 && !texts[rename(e, cp[0], cp[1])]:
+				bad = fmt.Sprintf("the conjunct `%s` for %s has no counterpart for %s", types.ExprString(e), cp[0].Name(), cp[1].Name())
+			case m1 && !texts[rename(e, cp[1], cp[0])]:
+				bad = fmt.Sprintf("the conjunct `%s` for %s has no counterpart for %s", types.ExprString(e), cp[1].Name(), cp[0].Name())
+			}
+		}
+		if bad == "" {
+			r.OK("E11.control-point-clauses-symmetric", key, c.Pos(is.Pos()), fmt.Sprintf("%d conjuncts", len(conj)))
+		} else {
+			r.Fail("E11.control-point-clauses-symmetric", key, c.Pos(is.Pos()), bad+": the two control points are not put to the same test, so one of them may lie off the chord (beyond the end point) while the cubic is still stored as a straight line — the part of the curve that overshoots disappears")
+		}
+		return true
+	})
+	r.Count("E11.control-point-clauses-symmetric", n)
+	r.Floor("E11.control-point-clauses-symmetric", 2)
+}
+
+// E11EmptyValueAccepted: the attribute reader rejects by length only what it could not unquote.
+func E11EmptyValueAccepted(c *core.Ctx, r *core.Report) {
+	r.Rule("E11.empty-value-accepted", "svgParser.parseAttributes takes the quoted value of an attribute, leaves the attribute loop when the value is too short to carry its two quotes, and strips them with a slice `v[a : len(v)-b]`. The slice is valid for len(v) ≥ a+b, so the length test that leaves the loop rejects exactly the lengths below a+b: `len(v) < a+b`. Rejecting len(v) = a+b as well (`<= 2`) treats the empty value `\"\"` as a missing one: the loop is left in the middle of the attributes, the remaining ones are lost, the element is pushed but never popped, and its transform and paint leak into every later sibling")
+	p := c.MustPkg("")
+	info := p.TypesInfo
+	fd := core.MustFuncDecl(p, "svgParser.parseAttributes")
+	r.Func("canvas.svgParser.parseAttributes")
+	key := "canvas.svgParser.parseAttributes|length test matches what the unquoting slice needs"
+	r.Count("E11.empty-value-accepted", 1)
+	lenOf := func(e ast.Expr) types.Object {
+		call, ok := core.Unparen(e).(*ast.CallExpr)
+		if !ok || len(call.Args) != 1 {
+			return nil
+		}
+		if id, ok := call.Fun.(*ast.Ident); !ok || id.Name != "len" {
+			return nil
+		}
+		if a, ok := core.Unparen(call.Args[0]).(*ast.Ident); ok {
+			return core.ObjOf(info, a)
+		}
+		return nil
+	}
+	// the slice v[a : len(v)-b]
+	var v types.Object
+	need := -1
+	var slicePos token.Pos
+	ast.Inspect(fd.Body, func(m ast.Node) bool {
+		se, ok := m.(*ast.SliceExpr)
+		if !ok || se.Low == nil || se.High == nil {
+			return true
+		}
+		id, ok := core.Unparen(se.X).(*ast.Ident)
+		if !ok {
+			return true
+		}
+		a, okA := core.ConstInt(info, se.Low)
+		be, okB := core.Unparen(se.High).(*ast.BinaryExpr)
+		if !okA || !okB || be.Op != token.SUB || lenOf(be.X) != core.ObjOf(info, id) {
+			return true
+		}
+		b, okC := core.ConstInt(info, be.Y)
+		if !okC {
+			return true
+		}
+		v, need, slicePos = core.ObjOf(info, id), int(a+b), se.Pos()
+		return true
+	})
+	if v == nil {
+		r.Fail("E11.empty-value-accepted", key, c.Pos(fd.Pos()), "the slice that strips the quotes (`v[a : len(v)-b]`) was not found")
+		return
+	}
+	// the guard: len(v) < K  or  len(v) <= K  (canonical form has the smaller side on the left)
+	var guardPos token.Pos
+	rejectsBelow := -1 // lengths < rejectsBelow are rejected
+	ast.Inspect(fd.Body, func(m ast.Node) bool {
+		is, ok := m.(*ast.IfStmt)
+		if !ok || is.Pos() > slicePos {
+			return true
+		}
+		be, ok := core.Unparen(is.Cond).(*ast.BinaryExpr)
+		if !ok || lenOf(be.X) != v {
+			return true
+		}
+		k, ok := core.ConstInt(info, be.Y)
+		if !ok {
+			return true
+		}
+		switch be.Op {
+		case token.LSS:
+			rejectsBelow, guardPos = int(k), is.Pos()
+		case token.LEQ:
+			rejectsBelow, guardPos = int(k)+1, is.Pos()
+		}
+		return true
+	})
+	switch {
+	case rejectsBelow < 0:
+		r.Fail("E11.empty-value-accepted", key, c.Pos(slicePos), fmt.Sprintf("no length test `len(%s) < %d` precedes the slice: a value shorter than its quotes makes it panic", v.Name(), need))
+	case rejectsBelow < need:
+		r.Fail("E11.empty-value-accepted", key, c.Pos(guardPos), fmt.Sprintf("the length test rejects lengths below %d but the slice needs at least %d bytes: a shorter value makes it panic", rejectsBelow, need))
+	case rejectsBelow > need:
+		r.Fail("E11.empty-value-accepted", key, c.Pos(guardPos), fmt.Sprintf("the length test rejects every value shorter than %d bytes, but the unquoting slice is valid from %d bytes on: a value of exactly %d bytes — the empty value \"\" — is taken for a missing one, the attribute loop is left early, the attributes after it are lost and the element's state is never popped", rejectsBelow, need, need))
+	default:
+		r.OK("E11.empty-value-accepted", key, c.Pos(guardPos), fmt.Sprintf("rejects len < %d", need))
+	}
+}
